@@ -939,3 +939,59 @@ def run_golomb(chk, F, fs, tier, pid):
         for b, r in res:
             pr = [p for p in r["problems"] if "read_golomb" in p or "evaluated" in p or "internal" in p or "fails" in p]
             chk.expect("K2.golomb", "b=%d%s" % (b, sfx), not pr and r["replays"] > 0, "Golomb b=%d: %s" % (b, "; ".join(pr)), sample={"b": b, "cells": r["replays"]})
+
+
+# ---- semantic comparison of a length expression with the length function of a code class ---------------------------------------
+def len_reference(fam, param):
+    """(path, env, extra args) of the library's length function for a canonical class, or None"""
+    if fam == "gamma":
+        return ("codes::gamma::len_gamma_param", {"USE_TABLE": False}, ())
+    if fam == "delta":
+        return ("codes::delta::len_delta_param", {"USE_DELTA_TABLE": False, "USE_GAMMA_TABLE": False}, ())
+    if fam == "omega":
+        return ("codes::omega::len_omega", {}, ())
+    if fam == "zeta" and isinstance(param, int):
+        return ("codes::zeta::len_zeta_param", {"USE_TABLE": False}, (("usize", param),))
+    if fam == "pi" and isinstance(param, int):
+        return ("codes::pi::len_pi", {}, (("usize", param),))
+    if fam == "exp_golomb" and isinstance(param, int):
+        return ("codes::exp_golomb::len_exp_golomb", {}, (("usize", param),))
+    if fam in ("vbyte", "vbyte_be", "vbyte_le"):
+        return ("codes::vbyte::bit_len_vbyte", {}, ())
+    return None
+
+
+def semantic_len(F, body, is_closure, fam, param):
+    """does `body` (a closure or function of one value argument) return, for every 64-bit value, the length of the class
+    (fam, param)?  -> (True | False | None, explanation); None = the comparison is outside the interpreter's reach"""
+    ref = len_reference(fam, param)
+    if ref is None:
+        return None, "no whole-domain reference for class %s" % ((fam, param),)
+    hs = handlers()
+
+    def run_body(it):
+        it.handlers = hs
+        it.cfg = {}
+        args = ([Opaque("closure")] if is_closure else []) + [it.input("u64")]
+        return it.call_body(body, args, {}, 0)
+
+    def refine(r, it):
+        return isinstance(r, AI) and r.const() is None
+    try:
+        mine = [cell_summary(c) for c in ivl.partition(F, run_body, 0, U64MAX, refine=refine)]
+        rr = Run(F, "ref", F.body(ref[0]), ref[1], ref[2], {}, refine_const=True)
+        theirs = [cell_summary(c) for c in rr.cells]
+    except Unsupported as e:
+        return None, "cannot be evaluated: %s" % e
+    for lo, hi, a, b in overlay_s(mine, theirs):
+        if hi > U64MAX - 1 and lo > U64MAX - 1:
+            continue
+        if a["status"] != "ok" or b["status"] != "ok":
+            if a["status"] != b["status"]:
+                return False, "for n in [%d, %d] one of the two is undefined (%s / %s)" % (lo, hi, a["why"], b["why"])
+            continue
+        if not (is_const(a["ret"]) and is_const(b["ret"])):
+            return None, "length not constant on [%d, %d]" % (lo, hi)
+        if a["ret"][2] != b["ret"][2]:
+            return False, "for n in [%d, %d] it yields %d where the length of %s is %d" % (lo, hi, a["ret"][2], (fam, param), b["ret"][2])
+    return True, "equal on every cell of the whole domain"
